@@ -288,10 +288,30 @@ def run(run: Run, pkg: Package) -> None:
     if len(p) != 3:
         raise AnalysisError("remove_pbc: expected (RIJ, hmatrix, ppp)")
     R, H, M = (("sym", x) for x in p)
-    if len(it.returns) != 1 or it.falls_through:
-        raise AnalysisError("remove_pbc: expected a single return")
-    ret = it.returns[0].data["value"]
+    if not it.returns or it.falls_through:
+        raise AnalysisError("remove_pbc: expected every path to return a value")
+    # several returns (fast paths): folded into one conditional value, last return as the default
+    ret = it.returns[-1].data["value"]
+    for r_ in reversed(it.returns[:-1]):
+        conds = [c_ if pol else ("un", "not", c_) for c_, pol in r_.guards]
+        if not conds:
+            ret = r_.data["value"]
+            continue
+        ret = ("phi", conds[0] if len(conds) == 1 else ("bool", "and", tuple(conds)), r_.data["value"], ret)
     loc = loc_of(it, it.returns[0])
+    # ---- the result is a function of the three arguments alone: no module-level state keyed on object identity
+    gl = sorted({x[1][1] for x in walk(ret) if x[0] == "sub" and x[1][0] == "global"})
+    for g in gl:
+        ident = None
+        for e_ in it.events:
+            if e_.kind == "store" and e_.data["target"][0] == "sub" and e_.data["target"][1] == ("global", g):
+                for c_, pol in e_.guards:
+                    if any(y[0] == "cmp" and y[1] in ("is", "is not") and any(z in (R, H, M) for z in (y[2], y[3])) for y in walk(c_)):
+                        ident = (e_, c_)
+        run.ob("R-ALG", fq, f"stateless:{g.rsplit('.', 1)[-1]}", False if ident else None, "the result depends on the arguments only (no cached cell data that can go stale)",
+               f"the returned value reads module-level {g.rsplit('.', 1)[-1]}" + (f", refreshed only when {show(ident[1])[:70]}" if ident else ""),
+               witness=(f"the cache is keyed on the IDENTITY of the argument array: call remove_pbc(R, cell, ppp), change the cell in place (cell[0, 0] = 20, cell *= 1.3, a reused "
+                        f"buffer), call again - the second call uses the inverse of the old cell") if ident else None, loc=loc_of(it, ident[0]) if ident else loc, sound=True)
     # a typing / algebra verdict counts as a violation only together with a concrete cell, mask and displacement on which the
     # extracted return term differs from the reference (positive witness)
     wit0 = numeric_witness(ret, R, H, M)
@@ -362,7 +382,11 @@ def numeric_witness(ret, R, H, M, trials=40, lengths=None):
             env = {R: Rm, H: Hm, M: Mm}
             if lengths is not None:
                 env[lengths] = np.diag(Hm).copy()
-            got = eval_np(ret, env)
+            try:
+                got = eval_np(ret, env)
+            except Unknown:
+                from ..concrete import ev as _cev      # wider table of operations (conditionals, reductions, diagonals)
+                got = _cev(ret, env)
         except Exception:
             return None
         A = Rm @ np.linalg.inv(Hm)
